@@ -42,12 +42,32 @@ func (m *streeModel) ruleExtremeLeaf(c *Ctx) {
 				return
 			}
 			node := fa.X
-			want := sym(node) + "." + r.fld.Name()
-			known := false
-			for _, cm := range cmpsAt(ret.Block()) {
-				if cm.Op == token.EQL && ((isNilConst(cm.Y) && sym(cm.X) == want) || (isNilConst(cm.X) && sym(cm.Y) == want)) {
-					known = true
+			endOfSpine := func(node ssa.Value, at *ssa.BasicBlock) bool {
+				want := sym(node) + "." + r.fld.Name()
+				for _, cm := range cmpsAt(at) {
+					if cm.Op == token.EQL && ((isNilConst(cm.Y) && sym(cm.X) == want) || (isNilConst(cm.X) && sym(cm.Y) == want)) {
+						return true
+					}
 				}
+				return false
+			}
+			known := endOfSpine(node, ret.Block())
+			if h := m.nodeDelegate(node); h != nil && !known {
+				// the descent lives in a helper (root.leftmost()): every node it returns is at the end of the spine
+				known = true
+				nret := 0
+				allInstrs(h, func(in2 ssa.Instruction) {
+					if r2, ok := in2.(*ssa.Return); ok && len(r2.Results) == 1 {
+						nret++
+						if !endOfSpine(r2.Results[0], r2.Block()) {
+							known = false
+						}
+					}
+				})
+				if nret == 0 {
+					known = false
+				}
+				c.sawFn(fnName(h))
 			}
 			c.sawFn(fnName(fn))
 			c.judge(known, "R-EXTREME-LEAF", fnName(fn)+":end of the spine", ret.Pos(), "."+r.fld.Name()+" == nil at the return", fmt.Sprintf("%s returns the key of a node without knowing that its .%s child is nil: a node part-way down the spine is taken for the extreme one (a descent that is not a loop)", r.name, r.fld.Name()))
@@ -1091,4 +1111,18 @@ func ruleNilWriteback(c *Ctx) {
 			c.judge(stored, "R-NIL-LAZY", fnName(fn)+":fresh map stored back", in.Pos(), "*s = the map allocated for a nil receiver", "a map is allocated because the receiver's map was nil, but it is never stored back through the receiver: the elements end up in a map only the return value refers to, and the caller's set stays nil")
 		})
 	}
+}
+
+// nodeDelegate: v is the result of calling a package-local function or method that returns a node (the helper a
+// lookup delegates its descent to); nil otherwise.
+func (m *streeModel) nodeDelegate(v ssa.Value) *ssa.Function {
+	call, ok := v.(*ssa.Call)
+	if !ok {
+		return nil
+	}
+	h := origin(staticCallee(&call.Call))
+	if h == nil || h.Blocks == nil || h.Pkg == nil || h.Pkg.Pkg.Name() != "stree" || h.Signature.Results().Len() != 1 || !isNamedOrigin(h.Signature.Results().At(0).Type(), m.nodeT) {
+		return nil
+	}
+	return h
 }
